@@ -425,7 +425,7 @@ func (v *visitor) checkFunc(fn reflect.Type, method bool, node ast.Node, name st
 			in = fn.In(i + offset)
 		}
 
-		if isIntegerOrArithmeticOperation(arg) && isInteger(t) && isNumber(in) {
+		if isIntegerOrArithmeticOperation(arg) && isInteger(t) && isNumber(in) && !isInterface(in) {
 			t = in
 			setTypeForIntegers(arg, t)
 		}
